@@ -102,8 +102,23 @@ def main(argv):
             R.violation('facts', 'bodies', 'anchor-missing', note='facts list %d bodies for crate %r (expected >= 160 for ppp)' % (len(raw['fns']), raw.get('crate')))
         ctx = Ctx(fx, R, tier, fx_rel)
         mod.run(ctx, R)
-        if hasattr(mod, 'fixtures'):
-            mod.fixtures(ctx, R)
+        if tier == 'thorough' and not getattr(mod, 'NEEDS_REL', False):
+            # thorough tier: the same rules on the release configuration's MIR (overflow checks and debug assertions off)
+            raw2, secs2 = F.build_facts(cfg='rel')
+            fx2 = F.Facts(raw2)
+            R.extra['release_facts_build_s'] = round(secs2, 2)
+            before = len(R.instances)
+            if raw2.get('overflow_checks') is not False:
+                R.violation('facts', 'release-config', 'anchor-missing', note='release facts were built with overflow checks on')
+            ctx2 = Ctx(fx2, R, tier, None)
+            saved = R.floors
+            R.floors = {}
+            mod.run(ctx2, R)
+            R.extra['release_floors'] = R.floors
+            R.floors = saved
+            R.extra['release_instances'] = len(R.instances) - before
+        import fixtures
+        fixtures.require(ctx, R, getattr(mod, 'FIXTURES', ['F3']))
     except F.FactsError as e:
         R.violation('facts', 'build', 'anchor-missing', note=str(e)[-1500:])
     except Exception as e:
